@@ -258,13 +258,15 @@ def main(run):
         exc.append((G.exc_line(ins), "template", True))
         exc.append((G.exc_line(ins, mid0=65533), "template", True))      # mid wraps inside the case
         exc.append((G.exc_line(ins, mid0=65535), "template", True))      # first request has mid 0
+        exc.append((G.exc_line(ins, tok0=-1), "template", True))         # first token has length 0
+        exc.append((G.exc_line(ins, tok0=72057594037927934), "template", True))   # 7- then 8-byte tokens
         exc.append((G.exc_line([x.replace(":7:", ":0:") for x in ins], mid0=6), "template", True))  # peer mid 0
     for i in range(0 if replay_only else 12000 if quick else 120000):
         honest = r.random() < 0.6
         maxr = r.choice([4, 4, 4, 1, 2, 7])
         exc.append((G.exc_line(["H%d" % r.choice([1, 1, 2, 3, 4, 5, 6, 7])] + G.random_exc(r, honest, maxr), maxr=maxr,
                                mid0=r.choice([100, 65530, 65534, 65535, 0, 7, 999]),
-                               tok0=r.choice([0, 0, 254, 65534])),
+                               tok0=r.choice([0, 0, -1, -1, 254, 65534, 72057594037927934])),
                     "random-honest" if honest else "random-arbitrary", honest))
     nfate = 7 if quick else 8
     for kind in (() if replay_only else ("real", "rfc")):
@@ -276,10 +278,17 @@ def main(run):
                     # untimed async: the application triggers 4 s after the registration, i.e. after
                     # the client's first retransmission
                     exe.append((G.exe_line(kind, [(sty, 1, 0)], fates, seed=3, adelay=4000,
-                                           nstart=16 if len(exe) % 2 else 0), "exhaustive-" + kind, True))
+                                           nstart=16 if len(exe) % 2 else 0,
+                                           tok0=G.TOK0S[(len(exe) // 2) % len(G.TOK0S)]), "exhaustive-" + kind, True))
                     continue
-                exe.append((G.exe_line(kind, [(sty, 1, 0)], fates, seed=3, nstart=16 if len(exe) % 2 else 0),
+                exe.append((G.exe_line(kind, [(sty, 1, 0)], fates, seed=3, nstart=16 if len(exe) % 2 else 0,
+                                       tok0=G.TOK0S[(len(exe) // 2) % len(G.TOK0S)]),
                             "exhaustive-" + kind, True))
+    # every fate table once more with a zero-length token (quick: one datagram shorter)
+    for kind in (() if replay_only else ("real", "rfc")):
+        for sty in G.STYLES:
+            for fates in G.exhaustive_fates(nfate - 1, 1500):
+                exe.append((G.exe_line(kind, [(sty, 1, 0)], fates, seed=3, tok0=-1), "exhaustive0-" + kind, True))
     if not quick and not replay_only:
         for kind in ("real", "rfc"):
             for sty in (1, 3):
@@ -292,6 +301,7 @@ def main(run):
         reqs = [(r.choice(G.EXE_STYLES), r.choice([1, 1, 1, 0]), r.choice([0, 0, 5, 400, 1800])) for _ in range(nreq)]
         fates = G.random_fates(r, r.choice([4, 8, 12, 20]), heavy=(r.random() < 0.25))
         exe.append((G.exe_line(kind, reqs, fates, seed=r.randrange(1, 1 << 30), method=r.choice([1, 1, 2, 3, 4]),
+                               tok0=r.choice(G.TOK0S + [-1]),
                                cmid0=r.choice([100, 65533, 65535, 41527, 41528, 41529]), smid0=r.choice([-1, -1, 65535, 99, 100]),
                                adelay=r.choice([1, 300, 1200, 2500, 4000]),
                                dflt=r.choice([0, 3, 40, 900]), nstart=r.choice([0, 16, 16])),
@@ -374,7 +384,8 @@ def main(run):
             run.sample({"case": ln[:200], "impl": oc[i][:400]})
         f = ln.split()
         cmid0 = int(f[f.index("M") + 1])
-        replay.append(G.exc_line([s[0] for s in p["steps"]], mid0=cmid0))
+        ctok0 = int(f[f.index("T") + 1]) if "T" in f[:12] else 0
+        replay.append(G.exc_line([s[0] for s in p["steps"]], mid0=cmid0, tok0=ctok0))
         errs = G.server_shape_errors(p["srv"][1]) if (p.get("srv") and " K real " in ln) else []
         nshape = nshape + 1 if errs else nshape
         if errs and nshape <= 2:
